@@ -35,40 +35,53 @@ namespace C01
 open Echse.Rrule Echse.Instant Echse.Spec.RrOk Echse.Spec.Rfc
 open Echse.Lemmas.RrSubRfc Echse.Lemmas.RrRfc Echse.Lemmas.RrMlyRfc Echse.Lemmas.RrYlyRfc
 
-/-- hypotheses shared by all statements: a parser-producible Gregorian rule, a sane seed in the years in which echse's
-leap rule is the Gregorian one, and no BYHOUR/BYMINUTE/BYSECOND on a DATE-valued seed (RFC 5545 forbids them there;
-the code does not ignore them: `Echse.Lemmas.RrDlyRfc` records the counterexample) -/
+/-- hypotheses shared by all statements: a parser-producible Gregorian rule and a sane seed in the years in which echse's
+leap rule is the Gregorian one.  (A former third one, no BYHOUR/BYMINUTE/BYSECOND on a DATE-valued seed, is gone: RFC 5545
+has these parts ignored next to a DATE value, so has the specification (`TimeExp`), and since the repair of `make_enum`
+so has the code; `date_seed_ignores_time_parts` below.) -/
 structure Pre (r : Rule) (p : Inst) : Prop where
   rule : WfRule r
   seed : WfInst p
   year : 1901 ≤ p.y
-  kind : SeedOk r p
 
 /-! ### FREQ=DAILY -/
 
 theorem daily_none_extra (r : Rule) (p : Inst) (n : Nat) (l : List Inst) (h0 : Pre r p) (hn : n ≤ 64)
     (hf : r.pos ≠ [] → r.freq = 4) (h : fillDly r p n = some l) : ∀ x ∈ l, DailyInst r p x ∧ SetposOk r p x :=
-  Echse.Lemmas.RrDlyRfc.fillDly_sound r p n l h0.rule h0.seed h0.kind hn h0.year hf h
+  Echse.Lemmas.RrDlyRfc.fillDly_sound r p n l h0.rule h0.seed hn h0.year hf h
 
 theorem daily_none_missing (r : Rule) (p : Inst) (n : Nat) (l : List Inst) (h0 : Pre r p) (hn : n ≤ 64)
     (hf : r.pos ≠ [] → r.freq = 4) (h : fillDly r p n = some l)
     (x : Inst) (hx : DailyInst r p x) (hsp : SetposOk r p x) (hge : absOf p ≤ absOf x)
     (hle : ltP r.untl x = false) (hxy : x.y ≤ 2099) :
     x ∈ l ∨ (l.length = capOf r n ∧ ∀ z ∈ l, ltP z x = true) :=
-  Echse.Lemmas.RrDlyRfc.fillDly_complete r p n l h0.rule h0.seed h0.kind hn h0.year hf h x hx hsp hge hle hxy
+  Echse.Lemmas.RrDlyRfc.fillDly_complete r p n l h0.rule h0.seed hn h0.year hf h x hx hsp hge hle hxy
+
+/-- FREQ=DAILY;BYHOUR=9;BYMINUTE=30 from the DATE 2020-01-01 (a combination RFC 5545 forbids and wants read with the
+time parts ignored): the days themselves come out, and they are the specification's instances.  Before the repair of
+`make_enum` the code wrote 2020-01-01T09:30:00, … and the theorems above had to exclude the case (`SeedOk`). -/
+def tR : Rule := { freq := 4, H := [9], M := [30] }
+def tD : Inst := { y := 2020, m := 1, d := 1, H := allDay, M := 0, S := 0, ms := 0 }
+theorem date_seed_ignores_time_parts :
+    fillDly tR tD 2 = some [tD, { tD with d := 2 }] ∧
+    ∀ x ∈ [tD, { tD with d := 2 }], DailyInst tR tD x ∧ SetposOk tR tD x := by
+  have h : fillDly tR tD 2 = some [tD, { tD with d := 2 }] := by decide +kernel
+  have hr : WfRule tR := by constructor <;> simp [tR, Asc]
+  have hd : WfInst tD := by constructor <;> decide
+  exact ⟨h, daily_none_extra tR tD 2 _ ⟨hr, hd, by decide⟩ (by decide) (fun _ => rfl) h⟩
 
 /-! ### FREQ=WEEKLY (weeks start on Monday) -/
 
 theorem weekly_none_extra (r : Rule) (p : Inst) (n : Nat) (l : List Inst) (h0 : Pre r p) (hn : n ≤ 64)
     (hf : r.pos ≠ [] → r.freq = 3) (h : fillWly r p n = some l) : ∀ x ∈ l, WeeklyInst r p x ∧ SetposOk r p x :=
-  Echse.Lemmas.RrWlyRfc.fillWly_sound r p n l h0.rule h0.seed h0.kind hn h0.year hf h
+  Echse.Lemmas.RrWlyRfc.fillWly_sound r p n l h0.rule h0.seed hn h0.year hf h
 
 theorem weekly_none_missing (r : Rule) (p : Inst) (n : Nat) (l : List Inst) (h0 : Pre r p) (hn : n ≤ 64)
     (hf : r.pos ≠ [] → r.freq = 3) (h : fillWly r p n = some l)
     (x : Inst) (hx : WeeklyInst r p x) (hsp : SetposOk r p x) (hge : absOf p ≤ absOf x)
     (hle : ltP r.untl x = false) (hxy : x.y ≤ 2099) :
     x ∈ l ∨ (l.length = capOf r n ∧ ∀ z ∈ l, ltP z x = true) :=
-  Echse.Lemmas.RrWlyRfc.fillWly_complete r p n l h0.rule h0.seed h0.kind hn h0.year hf h x hx hsp hge hle hxy
+  Echse.Lemmas.RrWlyRfc.fillWly_complete r p n l h0.rule h0.seed hn h0.year hf h x hx hsp hge hle hxy
 
 /-! ### FREQ=HOURLY / MINUTELY / SECONDLY
   `seedT p` is the seed as these fillers read it (a DATE-valued seed — outside RFC 5545 for these frequencies — counts
@@ -128,7 +141,7 @@ theorem weekly_of_daily {r : Rule} {p x : Inst} (h1 : plainDays r ≠ []) (h2 : 
 theorem monthly_none_extra (r : Rule) (p : Inst) (n : Nat) (l : List Inst) (h0 : Pre r p) (hn : n ≤ 64)
     (hsup : MlySup r) (hsh : r.shift = 0) (hf : r.pos ≠ [] → r.freq = 2) (h : fillMly r p n = some l) :
     ∀ x ∈ l, MonthlyInst r p x ∧ SetposOk r p x :=
-  fillMly_sound_all r p n l h0.rule h0.seed h0.kind hn h0.year hsup hsh hf h
+  fillMly_sound_all r p n l h0.rule h0.seed hn h0.year hsup hsh hf h
 
 theorem monthly_none_missing (r : Rule) (p : Inst) (n : Nat) (l : List Inst) (h0 : Pre r p) (hn : n ≤ 64)
     (hsup : MlySup r) (hsh : r.shift = 0) (hf : r.pos ≠ [] → r.freq = 2) (hfp : MlyFirstPos r p)
@@ -136,20 +149,20 @@ theorem monthly_none_missing (r : Rule) (p : Inst) (n : Nat) (l : List Inst) (h0
     (x : Inst) (hx : MonthlyInst r p x) (hsp : SetposOk r p x) (hge : absOf p ≤ absOf x)
     (hle : ltP r.untl x = false) (hxy : x.y ≤ 2099) :
     x ∈ l ∨ (l.length = capOf r n ∧ ∀ z ∈ l, ltP z x = true) :=
-  fillMly_complete_all r p n l h0.rule h0.seed h0.kind hn h0.year hsup hsh hf hfp h x hx hsp hge hle hxy
+  fillMly_complete_all r p n l h0.rule h0.seed hn h0.year hsup hsh hf hfp h x hx hsp hge hle hxy
 
 /-- without BYSETPOS a seed that is an occurrence needs no `MlyFirstPos` -/
 theorem monthly_none_missing_sync (r : Rule) (p : Inst) (n : Nat) (l : List Inst) (h0 : Pre r p) (hn : n ≤ 64)
     (hsup : MlySup r) (hsh : r.shift = 0) (hpos : r.pos = []) (hsync : MonthlyInst r p p) (h : fillMly r p n = some l)
     (x : Inst) (hx : MonthlyInst r p x) (hge : absOf p ≤ absOf x) (hle : ltP r.untl x = false) (hxy : x.y ≤ 2099) :
     x ∈ l ∨ (l.length = capOf r n ∧ ∀ z ∈ l, ltP z x = true) :=
-  fillMly_complete_sync r p n l h0.rule h0.seed h0.kind hn h0.year hsup hsh hpos hsync h x hx hge hle hxy
+  fillMly_complete_sync r p n l h0.rule h0.seed hn h0.year hsup hsh hpos hsync h x hx hge hle hxy
 
 /-- across a refill: the seed `p` is an occurrence of (`ds`, rule); what the call writes are occurrences of (`ds`, rule) … -/
 theorem monthly_refill_none_extra (r : Rule) (ds p : Inst) (n : Nat) (l : List Inst) (h0 : Pre r p) (hn : n ≤ 64)
     (hsup : MlySup r) (hsh : r.shift = 0) (hf : r.pos ≠ [] → r.freq = 2) (hseed : MonthlyInst r ds p)
     (h : fillMly r p n = some l) : ∀ x ∈ l, MonthlyInst r ds x ∧ SetposOk r ds x :=
-  fillMly_sound_reseed r ds p n l h0.rule h0.seed h0.kind hn h0.year hsup hsh hf hseed h
+  fillMly_sound_reseed r ds p n l h0.rule h0.seed hn h0.year hsup hsh hf hseed h
 
 /-- … and none from the seed on is left out -/
 theorem monthly_refill_none_missing (r : Rule) (ds p : Inst) (n : Nat) (l : List Inst) (h0 : Pre r p) (hn : n ≤ 64)
@@ -158,7 +171,7 @@ theorem monthly_refill_none_missing (r : Rule) (ds p : Inst) (n : Nat) (l : List
     (x : Inst) (hx : MonthlyInst r ds x) (hsp : SetposOk r ds x) (hge : absOf p ≤ absOf x)
     (hle : ltP r.untl x = false) (hxy : x.y ≤ 2099) :
     x ∈ l ∨ (l.length = capOf r n ∧ ∀ z ∈ l, ltP z x = true) :=
-  fillMly_complete_reseed r ds p n l h0.rule h0.seed h0.kind hn h0.year hsup hsh hf hseed hfp h x hx hsp hge hle hxy
+  fillMly_complete_reseed r ds p n l h0.rule h0.seed hn h0.year hsup hsh hf hseed hfp h x hx hsp hge hle hxy
 
 /-! ### FREQ=YEARLY
   `YlySup r`: no BYEASTER (not RFC 5545), at most 62 BYMONTHDAY and 12 BYMONTH values (the parser's sets), BYDAY ordinals
@@ -174,19 +187,19 @@ theorem monthly_refill_none_missing (r : Rule) (ds p : Inst) (n : Nat) (l : List
 theorem yearly_none_extra (r : Rule) (p : Inst) (n : Nat) (l : List Inst) (h0 : Pre r p) (hn : n ≤ 64)
     (hsup : YlySup r) (hsh : r.shift = 0) (hf : r.pos ≠ [] → r.freq = 1) (h : fillYly r p n = some l) :
     ∀ x ∈ l, YearlyInst r p x ∧ SetposOk r p x :=
-  fillYly_sound_all r p n l h0.rule h0.seed h0.kind hn h0.year hsup hsh hf h
+  fillYly_sound_all r p n l h0.rule h0.seed hn h0.year hsup hsh hf h
 
 theorem yearly_none_missing (r : Rule) (p : Inst) (n : Nat) (l : List Inst) (h0 : Pre r p) (hn : n ≤ 64)
     (hsup : YlySup r) (hsh : r.shift = 0) (hf : r.pos ≠ [] → r.freq = 1) (h : fillYly r p n = some l)
     (x : Inst) (hx : YearlyInst r p x) (hsp : SetposOk r p x) (hge : absOf p ≤ absOf x)
     (hle : ltP r.untl x = false) (hxy : x.y ≤ 2099) :
     x ∈ l ∨ (l.length = capOf r n ∧ ∀ z ∈ l, ltP z x = true) :=
-  fillYly_complete_all r p n l h0.rule h0.seed h0.kind hn h0.year hsup hsh hf h x hx hsp hge hle hxy
+  fillYly_complete_all r p n l h0.rule h0.seed hn h0.year hsup hsh hf h x hx hsp hge hle hxy
 
 theorem yearly_refill_none_extra (r : Rule) (ds p : Inst) (n : Nat) (l : List Inst) (h0 : Pre r p) (hn : n ≤ 64)
     (hsup : YlySup r) (hsh : r.shift = 0) (hf : r.pos ≠ [] → r.freq = 1) (hseed : YearlyInst r ds p)
     (h : fillYly r p n = some l) : ∀ x ∈ l, YearlyInst r ds x ∧ SetposOk r ds x :=
-  fillYly_sound_reseed r ds p n l h0.rule h0.seed h0.kind hn h0.year hsup hsh hf hseed h
+  fillYly_sound_reseed r ds p n l h0.rule h0.seed hn h0.year hsup hsh hf hseed h
 
 theorem yearly_refill_none_missing (r : Rule) (ds p : Inst) (n : Nat) (l : List Inst) (h0 : Pre r p) (hn : n ≤ 64)
     (hsup : YlySup r) (hsh : r.shift = 0) (hf : r.pos ≠ [] → r.freq = 1) (hseed : YearlyInst r ds p)
@@ -194,7 +207,7 @@ theorem yearly_refill_none_missing (r : Rule) (ds p : Inst) (n : Nat) (l : List 
     (x : Inst) (hx : YearlyInst r ds x) (hsp : SetposOk r ds x) (hge : absOf p ≤ absOf x)
     (hle : ltP r.untl x = false) (hxy : x.y ≤ 2099) :
     x ∈ l ∨ (l.length = capOf r n ∧ ∀ z ∈ l, ltP z x = true) :=
-  fillYly_complete_reseed r ds p n l h0.rule h0.seed h0.kind hn h0.year hsup hsh hf hseed h x hx hsp hge hle hxy
+  fillYly_complete_reseed r ds p n l h0.rule h0.seed hn h0.year hsup hsh hf hseed h x hx hsp hge hle hxy
 
 /-- why `YlySup.wkPlain` is there: FREQ=YEARLY;BYWEEKNO=20;BYDAY=1MO from 2021-01-04T09:00:00 — the code finds nothing
 (`echse unroll` prints nothing either), the specification has the Monday of week 20 -/
